@@ -2,6 +2,7 @@ package props
 
 import (
 	"fmt"
+	z "github.com/Oudwins/zog"
 	"reflect"
 	"strings"
 
@@ -140,7 +141,7 @@ func c19Schema(r *rng.Rand) (*spec.Node, bool) {
 	o.DefaultPct = 40
 	o.CatchPct = 20
 	o.Posts = false
-	o.Customs = false
+	o.Customs = r.Intn(3) == 0
 	o.MaxDepth = 3
 	switch r.Intn(8) {
 	case 0, 1:
@@ -169,6 +170,24 @@ func c19Schema(r *rng.Rand) (*spec.Node, bool) {
 			x.Mods = append(x.Mods, spec.Mod{Op: spec.MDefault, Val: [][]string{make([]string, 0, 4), append(make([]string, 0, 4), "dd")}[r.Intn(2)]})
 			special = true
 		}
+		if x.Kind == spec.Slice && !x.Eff().HasDefault && r.Intn(3) == 0 {
+			// defaults that hold more than strings and numbers: structs (with their own slices), pointers, reference-typed custom values
+			deep := false
+			switch x.Elem.Kind {
+			case spec.Struct:
+				// (pointer elements are left to c19PointerDefault: as Parse *input* a pointer leaf is rendered with %v, i.e. by address)
+				deep = true
+			case spec.Custom:
+				deep = x.Elem.CustomT.Name == "[]int"
+			}
+			if deep {
+				tree := gen.ValueTree(r, x, gen.InOpts{ValidPct: 100}, true)
+				if sl, ok := tree.([]any); ok && len(sl) > 0 {
+					x.Mods = append(x.Mods, spec.Mod{Op: spec.MDefault, Val: obs.Make(x.GoType(), tree).Interface()})
+					special = true
+				}
+			}
+		}
 		if x.Kind == spec.Slice && x.Eff().HasDefault {
 			special = true
 		}
@@ -195,8 +214,50 @@ func c19Schema(r *rng.Rand) (*spec.Node, bool) {
 			}
 		}
 	})
+	// a custom schema hands a reference-typed input (a []int) to the destination as it is; a transform of an enclosing slice
+	// that writes to its elements would then write into the input through the destination it was given: keep those apart
+	seen3 := map[*spec.Node]bool{}
+	n.Walk(func(x *spec.Node) {
+		if seen3[x] || x.Kind != spec.Slice {
+			return
+		}
+		seen3[x] = true
+		hasCustom := false
+		x.Elem.Walk(func(e *spec.Node) {
+			if e.Kind == spec.Custom {
+				hasCustom = true
+			}
+		})
+		if hasCustom {
+			x.Posts = nil
+		}
+	})
 	n.Number()
 	return n, special
+}
+
+// c19PointerDefault: a slice default whose elements are pointers, used by Validate (a pointer leaf is not meaningful Parse
+// input): every validated value gets its own pointees.
+func c19PointerDefault(c *core.Ctx) bool {
+	x, y := 1, 2
+	def := []*int{&x, &y}
+	sch := z.Slice(z.Ptr(z.Int())).Default(def)
+	for round := 0; round < 3; round++ {
+		var d []*int
+		issues := sch.Validate(&d)
+		c.Eval(1)
+		if issues != nil || len(d) != 2 || d[0] == nil || d[1] == nil || *d[0] != 1 || *d[1] != 2 {
+			c.Violation("schema-behaves-differently-on-later-use|Validate", map[string]any{"schema": "z.Slice(z.Ptr(z.Int())).Default([]*int{&1, &2})", "round": round, "value": fmt.Sprint(obs.Render(obs.Norm(d))), "issues": fmt.Sprint(issues)})
+			return false
+		}
+		*d[0], *d[1] = 70+round, 80+round // the caller owns what it validated
+		if x != 1 || y != 2 || d[0] == def[0] {
+			c.Violation("builder-value-modified|by-writing-to-the-destination-afterwards", map[string]any{"schema": "z.Slice(z.Ptr(z.Int())).Default([]*int{&1, &2})", "default_now": fmt.Sprintf("[%d %d]", x, y)})
+			return false
+		}
+	}
+	c.Count("pointer_default_rounds", 3)
+	return true
 }
 
 // builderValues collects the values the harness handed to builders.
@@ -315,6 +376,9 @@ func unchangedWhereNoWriter(n *spec.Node, before, after any, path string) string
 }
 
 func (c19) RunCase(c *core.Ctx) {
+	if c.Case%200 == 17 && !c19PointerDefault(c) {
+		return
+	}
 	n, special := c19Schema(c.R)
 	src := n.Source()
 	b := spec.Build(n, nil) // ONE schema object for the whole history
